@@ -335,12 +335,12 @@ func allFit(bits int, m *big.Int, op string, kind string, a, b *big.Int) bool {
 		}
 		return fitsS(mulB(a, m), bits)
 	case "as":
-		k := kindOf(kind)
-		q := tq(a, m)
-		if k.signed {
-			return fitsS(q, k.bits)
-		}
-		return fitsU(q, k.bits)
+		// always judged: `As` to an integer kind is `TO(int64 quotient)`, and Go's integer -> integer conversion is fully
+		// defined (truncation to the width of the target), also when the integer part does not fit the target kind - the
+		// model (Fixed.toKind) and both implementations must agree on the wrapped value
+		// (C03.f64_f128_agree_as_int has no fitsKind hypothesis).  Only float -> integer out of range is
+		// implementation-defined, and that is the float From path (area fxfloatm), not this one.
+		return true
 	case "maxsafe": // f128.MaxSafeMultiply is the fixed-point Maximum.Div(Multiplier): the intermediate Max·mult wraps
 		return bits == 64
 	case "fnorm", "fval", "fstr", "fnew", "fjson", "fjsonbad":
